@@ -55,6 +55,10 @@ const (
 	// The number of bits of short node is decided during creating.
 	maxShortSize = int32(10)
 
+	// maxStep is the max step(in 4-bit) an inner node can have if it stores
+	// only the length of a prefix: a step is encoded in 16 bit.
+	maxStep = int32(0xffff)
+
 	// maxWordSize is the longest bit to look forward when creating.
 	maxWordSize = int32(24)
 )
